@@ -30,6 +30,10 @@ def obligations(tier):
                                   weight=nn * 20, budget_s=900 if tier == "quick" else 7200, max_paths=200000))
                 obs.append(Ob(f"{spec_name(('ind', name, kw))}/tf={tf}/n={nn}", dict(spec=["ind", name, kw], n=nn, tf=tf, part=("rounded" if name == "TSI" else "all")), INV_UF if name == "ADX" else INV,
                               weight=nn * (20 if name in EXTRA else 1), budget_s=900 if tier == "quick" else 7200, max_paths=200000))
+    # every numeric reading is rounded to the indicator's round_value decimals: also for other settings than the default
+    for name, kw, w in (("SMA", dict(period=2), 1), ("MACD", dict(fast_period=2, slow_period=3, signal_period=2), 3), ("BBANDS", dict(period=2), 2), ("ATR", dict(period=2), 2), ("VWAP", dict(), 0)):
+        for rv in (0, 1, 2, 6):
+            obs.append(Ob(f"{spec_name(('ind', name, kw))}/round_value={rv}", dict(spec=["ind", name, kw], n=w + 3, tf=None, part="rounded", rv=rv), INV, weight=5, budget_s=300))
     return obs
 
 
@@ -54,6 +58,9 @@ def run(ctx, P):
     n = P["n"]
     cs = mk_candles(ctx, n)
     common = dict(timeframe=P["tf"]) if P.get("tf") else {}
+    rv = P.get("rv", 4)
+    if "rv" in P:
+        common["round_value"] = rv
     ind = build(name, kw, candles=cs, **common)
     ind.calculate()
     out = ind.as_list()
@@ -66,7 +73,7 @@ def run(ctx, P):
         leaves = r.items() if isinstance(r, dict) else [(None, r)]
         for f, x in leaves:
             if part != "range":
-                R("stored-value-is-rounded", is_rounded(ctx, x), f"candle {i} field {f}: {x!r}")
+                R("stored-value-is-rounded", is_rounded(ctx, x, rv), f"candle {i} field {f}: {x!r}")
     if part == "rounded":
         return
     ok = lambda *xs: all(x is not None for x in xs)
@@ -152,7 +159,7 @@ def run(ctx, P):
 
 
 META = dict(
-    bounds=dict(quick="n = warm-up+4 candles (value-branching indicators +1..3), smallest legal periods, round_value 4; base timeframe, and T2 for the non-branching indicators",
+    bounds=dict(quick="n = warm-up+4 candles (value-branching indicators +1..3), smallest legal periods, round_value 4 (round_value 0/1/2/6 for the rounded-ness clause on five indicators); base timeframe, and T2 for the non-branching indicators",
                 thorough="n+1, periods 2 and 3, T2 for all"),
     stubs=["float arithmetic -> exact real arithmetic", "round -> eps model with grid monotonicity", "max/min/abs -> If-terms", "symbolic denominators assumed non-zero (C09 owns the zero cases)", "ADX: mul/div abstracted during path exploration, exact at assertions"],
     assumptions=["relations between separately rounded stored values are asserted with slack k*0.5e-4 as the property allows", "the rounded-ness check is structural: the stored term must be a round() application (or an int/bool/None)"],
